@@ -38,8 +38,51 @@ func solverList() []solverSpec {
 	}
 }
 
+func (o *Obligation) smtCase(footer []string, mask int) string {
+	as := append([]*Term{}, o.ex.Assumes[:o.NAssume]...)
+	as = append(as, o.Guard)
+	for k, sp := range o.Splits {
+		if mask&(1<<k) != 0 {
+			as = append(as, sp)
+		} else {
+			as = append(as, Not(sp))
+		}
+	}
+	return SMTQuery(as, o.Goal, []string{"(set-logic ALL)", "; obligation " + o.Name + fmt.Sprintf(" case %d", mask), "; " + o.Note, "; " + o.Pos.String()}, footer)
+}
+
+var quantMemo = map[*Term]bool{}
+
+func hasQuant(t *Term) bool {
+	if v, ok := quantMemo[t]; ok {
+		return v
+	}
+	r := t.Op == "forall" || t.Op == "exists"
+	if !r {
+		for _, a := range t.Args {
+			if hasQuant(a) {
+				r = true
+				break
+			}
+		}
+	}
+	quantMemo[t] = r
+	return r
+}
+
 func (o *Obligation) smt(footer []string) string {
 	as := append([]*Term{}, o.ex.Assumes[:o.NAssume]...)
+	if o.Kind == "cover" {
+		// vacuity guards ask for satisfiability; quantified hypotheses (frame axioms, range facts) are
+		// left out so that the solvers can answer -- the guard then covers the quantifier-free hypotheses only
+		var qf []*Term
+		for _, a := range as {
+			if !hasQuant(a) {
+				qf = append(qf, a)
+			}
+		}
+		as = qf
+	}
 	as = append(as, o.Guard)
 	return SMTQuery(as, o.Goal, []string{"(set-logic ALL)", "; obligation " + o.Name, "; " + o.Note, "; " + o.Pos.String()}, footer)
 }
@@ -90,11 +133,22 @@ func solveAll(obls []*Obligation, outDir string, timeout time.Duration, thorough
 	res := make([]*Result, len(obls))
 	// SMT text must be produced single-threaded (term tables are not thread safe)
 	files := make([]string, len(obls))
+	cases := make([][]string, len(obls))
 	for i, o := range obls {
 		f := filepath.Join(outDir, fmt.Sprintf("%04d_%s.smt2", i, safeFile(o.Name)))
 		footer := []string{"(check-sat)"}
-		os.WriteFile(f, []byte(o.smt(footer)), 0644)
 		files[i] = f
+		if len(o.Splits) > 0 && o.Kind != "cover" && len(o.Splits) <= 6 {
+			for m := 0; m < 1<<len(o.Splits); m++ {
+				cf := filepath.Join(outDir, fmt.Sprintf("%04d_%s.case%d.smt2", i, safeFile(o.Name), m))
+				os.WriteFile(cf, []byte(o.smtCase(footer, m)), 0644)
+				cases[i] = append(cases[i], cf)
+			}
+			files[i] = cases[i][0]
+			continue
+		}
+		os.WriteFile(f, []byte(o.smt(footer)), 0644)
+		cases[i] = []string{f}
 	}
 	var wg sync.WaitGroup
 	sem := make(chan struct{}, jobs)
@@ -105,6 +159,23 @@ func solveAll(obls []*Obligation, outDir string, timeout time.Duration, thorough
 			sem <- struct{}{}
 			defer func() { <-sem }()
 			o := obls[i]
+			if len(cases[i]) > 1 {
+				// every case must be discharged; the first failing case is reported
+				r := &Result{O: o, File: files[i], Status: "unsat"}
+				for _, cf := range cases[i] {
+					cr := solveOne(o, cf, timeout, thorough)
+					r.Secs += cr.Secs
+					r.Tried = append(r.Tried, cr.Tried...)
+					if cr.Status != "unsat" {
+						r.Status, r.File, r.Output, r.Solver = cr.Status, cf, cr.Output, cr.Solver
+						break
+					}
+					r.Solver = cr.Solver
+					r.Agreed = cr.Agreed
+				}
+				res[i] = r
+				return
+			}
 			r := &Result{O: o, File: files[i], Status: "unknown"}
 			for _, sp := range solverList() {
 				stt, out, secs := runSolver(sp, files[i], timeout)
@@ -137,3 +208,31 @@ func solveAll(obls []*Obligation, outDir string, timeout time.Duration, thorough
 }
 
 func (r *Result) OK() bool { return r.Status == r.O.Expect }
+
+func solveOne(o *Obligation, file string, timeout time.Duration, thorough bool) *Result {
+	r := &Result{O: o, File: file, Status: "unknown"}
+	for _, sp := range solverList() {
+		stt, out, secs := runSolver(sp, file, timeout)
+		r.Tried = append(r.Tried, fmt.Sprintf("%s:%s:%.2fs", sp.Name, stt, secs))
+		r.Secs += secs
+		if stt == "sat" || stt == "unsat" {
+			if r.Status != "sat" && r.Status != "unsat" {
+				r.Status, r.Solver, r.Output = stt, sp.Name, out
+			}
+			if stt == r.Status {
+				r.Agreed = append(r.Agreed, sp.Name)
+			}
+			if !thorough || len(r.Agreed) >= 2 {
+				break
+			}
+			continue
+		}
+		if r.Output == "" {
+			r.Output = out
+		}
+		if stt == "timeout" && r.Status == "unknown" {
+			r.Status = "timeout"
+		}
+	}
+	return r
+}
